@@ -247,17 +247,16 @@ theorem rtu_client_corrupt_not_decoded (F E rest : Bytes) (fr : Rtu.Frame) (s : 
   rw [hl] at hd
   exact rtu_rsp_corrupt_not_returned F E rest fr f hF hlen hE hd
 
-/-- the contrapositive reading for the server side: when the scanner's answer on the corrupted buffer
-*is* a frame at `(0, F.length)` — impossible — …; stated positively: if the scan reports nothing or an
-error, the ADU decoder returns no value -/
-theorem rtu_server_corrupt_none_of_scan (buf : Bytes) (s : UInt8) (r : Request)
+/-- complement: when the scanner reports no frame at all (as on the flipped sample below, where every
+offset is rejected), the ADU decoder returns no value -/
+theorem rtu_server_none_of_scan (buf : Bytes) (s : UInt8) (r : Request)
     (hscan : ∀ f loc, Rtu.decodeReq buf ≠ .ok (some (f, loc))) :
     Rtu.serverDecodeRequest buf ≠ .ok (some (s, r)) := by
   intro h
   obtain ⟨f, loc, hd, _, _⟩ := C08.rtu_server_decode_of_scan buf s r h
   exact hscan f loc hd
 
-theorem rtu_client_corrupt_none_of_scan (buf : Bytes) (s : UInt8) (p : ResponsePdu)
+theorem rtu_client_none_of_scan (buf : Bytes) (s : UInt8) (p : ResponsePdu)
     (hscan : ∀ f loc, Rtu.decodeRsp buf ≠ .ok (some (f, loc))) :
     Rtu.clientDecodeResponse buf ≠ .ok (some (s, p)) := by
   intro h
@@ -322,7 +321,12 @@ example (rest : Bytes) : ∃ e a, Rtu.attemptReq (flipped ++ rest) = .err (.crc 
     (by decide) (Or.inl (singleBit_bitError 8 22 (by decide)))
   have e : xorBytes good (bitError 8 22) = flipped := by decide +kernel
   rw [e] at h
-  exact h (by simp [flipped, Rtu.requestPduLen, idx]; decide)
+  apply h
+  have hl : ¬ ((flipped ++ rest).length < 2) := by simp [flipped]
+  have hi : idx (flipped ++ rest) 1 = .ok 0x01 := rfl
+  unfold Rtu.requestPduLen
+  rw [if_neg hl, hi]
+  rfl
 
 /-- `rtu_server_corrupt_not_decoded`: hypothesis satisfied by the flipped frame followed by the intact one -/
 example : ∃ f loc, Rtu.decodeReq (flipped ++ good) = .ok (some (f, loc)) ∧ f.slave = 0x11 ∧
